@@ -322,6 +322,68 @@ func (g *gen) dkgScenario(t, n int, faulty bool, exhaustive bool) {
 	}
 }
 
+// bigClientScenario: client threshold keys with 10..20 shares; subsets biased to contain shares whose id is >= 10;
+// reconstruction both with the share objects and through the id STRINGS (GetID -> SetID on a fresh scheme object).
+func (g *gen) bigClientScenario(t, n int) {
+	r := g.r
+	g.add("dkg %d %d", t, n)
+	g.add("order")
+	g.add("msg a %s", rndGeneric(r))
+	g.add("key p %s", rndNonZero(r))
+	pa := g.sig("ksign p a")
+	g.add("kverify p %d a", pa)
+	cs := make([]string, t-1)
+	for i := range cs {
+		cs[i] = rndGeneric(r)
+	}
+	c := "-"
+	if len(cs) > 0 {
+		c = strings.Join(cs, ",")
+	}
+	g.add("tks %d %d p %s", t, n, c)
+	ts := make([]int, n)
+	for i := 0; i < n; i++ {
+		ts[i] = g.sig("tsign %d a", i)
+		g.add("tid %d", i)
+	}
+	for x := 0; x < 10; x++ {
+		k := t
+		if r.Intn(3) == 0 && t < n {
+			k = t + r.Intn(n-t+1)
+		}
+		if r.Intn(6) == 0 && t > 1 {
+			k = t - 1
+		}
+		// choose k share indices, preferring those with id >= 10 (index >= 9)
+		p := r.Perm(n)
+		if r.Intn(4) > 0 {
+			var hi, lo []int
+			for _, i := range p {
+				if i >= 9 {
+					hi = append(hi, i)
+				} else {
+					lo = append(lo, i)
+				}
+			}
+			p = append(hi, lo...)
+		}
+		sel := append([]int(nil), p[:k]...)
+		r.Shuffle(len(sel), func(a, b int) { sel[a], sel[b] = sel[b], sel[a] })
+		var es []string
+		for _, i := range sel {
+			es = append(es, fmt.Sprintf("%d:%d", i, ts[i]))
+		}
+		op := "reconstructs"
+		if r.Intn(3) == 0 {
+			op = "reconstruct"
+		}
+		rs := g.sig("%s %s", op, strings.Join(es, ","))
+		if r.Intn(2) == 0 {
+			g.add("kverify p %d a", rs)
+		}
+	}
+}
+
 // clientScenario: threshold client keys and split keys.
 func (g *gen) clientScenario(t, n int, exhaustive bool) {
 	r := g.r
@@ -346,6 +408,9 @@ func (g *gen) clientScenario(t, n int, exhaustive bool) {
 	ts := make([]int, n)
 	for i := 0; i < n; i++ {
 		ts[i] = g.sig("tsign %d a", i)
+		if r.Intn(2) == 0 {
+			g.add("tid %d", i)
+		}
 		if r.Intn(3) == 0 {
 			g.add("tverify %d %d a", i, ts[i])
 			g.add("tverify %d %d a", (i+1)%n, ts[i])
@@ -373,7 +438,11 @@ func (g *gen) clientScenario(t, n int, exhaustive bool) {
 				for _, i := range p {
 					es = append(es, fmt.Sprintf("%d:%d", i, ts[i]))
 				}
-				rs := g.sig("reconstruct %s", strings.Join(es, ","))
+				rop := "reconstruct"
+				if r.Intn(3) == 0 {
+					rop = "reconstructs"
+				}
+				rs := g.sig("%s %s", rop, strings.Join(es, ","))
 				if r.Intn(4) == 0 {
 					g.add("kverify p %d a", rs)
 				}
@@ -426,8 +495,12 @@ func genCase(r *rand.Rand, thorough bool, i int) []string {
 		g.dkgScenario(t, n, false, exhaustive)
 	case x < 8:
 		g.dkgScenario(t, n, true, false)
-	default:
+	case x < 9:
 		g.clientScenario(t, n, exhaustive)
+	default:
+		// up to MaxSigners = 20 shares: ids 10..20 have two-digit renderings
+		nn := 10 + r.Intn(11)
+		g.bigClientScenario(1+r.Intn(nn), nn)
 	}
 	return g.ops
 }
